@@ -28,7 +28,9 @@ impl Element {
 
 impl Hash for Element {
     fn hash<H: core::hash::Hasher>(&self, state: &mut H) {
-        self.inner.hash(state);
+        // Hash the canonical encoding: equal elements (either coset
+        // representative) must hash equally.
+        self.vartime_compress().0.hash(state);
     }
 }
 
